@@ -59,6 +59,8 @@ thread_local! { static W: RefCell<Option<World>> = const { RefCell::new(None) };
 thread_local! {
     /// set by the C16 stratum: peers close often (the judged clause there is the closed report)
     pub static CLOSE_HEAVY: std::cell::Cell<bool> = const { std::cell::Cell::new(false) };
+    /// set by the C14 stratum: the receiving end changes hands in every run, and often
+    pub static TAKEOVER_HEAVY: std::cell::Cell<bool> = const { std::cell::Cell::new(false) };
 }
 fn w<R>(f: impl FnOnce(&mut World) -> R) -> R {
     W.with(|x| f(x.borrow_mut().as_mut().expect("l1 world")))
@@ -250,7 +252,8 @@ pub fn run(ctx: &mut Ctx) {
     // polled by another task: the queue must wake whoever polled it LAST. In runs with
     // `change_waker` the receiver now and then comes back with a new waker, and only wake-ups of
     // the current one count (wake-ups of an earlier one reach nobody).
-    let change_waker = ctx.plan(3) == 2;
+    let heavy = TAKEOVER_HEAVY.with(|c| c.get());
+    let change_waker = ctx.plan(3) == 2 || heavy;
     let rw_cell: std::rc::Rc<RefCell<Arc<RecvWaker>>> = std::rc::Rc::new(RefCell::new(Arc::new(RecvWaker(AtomicU64::new(0)))));
     let mut seen = 0u64;
     let mut parked = false;
@@ -332,7 +335,7 @@ pub fn run(ctx: &mut Ctx) {
     for _ in 0..chaos {
         // another task takes over the receiving end: a new recv call is a poll whether or not
         // anybody was woken, under a new waker
-        let takeover = change_waker && rt::draw_rare(Tape::Sched, 2, 1, 8) == 1;
+        let takeover = change_waker && rt::draw_rare(Tape::Sched, 2, 1, if heavy { 3 } else { 8 }) == 1;
         if takeover {
             *rw_cell.borrow_mut() = Arc::new(RecvWaker(AtomicU64::new(0)));
             seen = 0;
